@@ -142,6 +142,31 @@ def _replay(h, params, model, obligation):
     return dict(reproduced=False, why="all obligations hold concretely")
 
 
+class _PathTimeout(BaseException):
+    pass
+
+
+class _alarm:
+    def __init__(self, seconds):
+        self.s = seconds
+
+    def __enter__(self):
+        import signal
+
+        def hdl(signum, frame):
+            raise _PathTimeout()
+
+        self.old = signal.signal(signal.SIGALRM, hdl)
+        signal.alarm(int(self.s))
+
+    def __exit__(self, *a):
+        import signal
+
+        signal.alarm(0)
+        signal.signal(signal.SIGALRM, self.old)
+        return False
+
+
 def _work(pid, tier, hname, pi, prefix, max_paths, budget_s):
     from . import engine as E
 
@@ -156,7 +181,14 @@ def _work(pid, tier, hname, pi, prefix, max_paths, budget_s):
     while stack and n < max_paths and time.time() - t0 < budget_s:
         p = stack.pop()
         try:
-            res = E.run_path(h.fn, params, p, opts)
+            with _alarm(opts.path_timeout_s):
+                res = E.run_path(h.fn, params, p, opts)
+        except _PathTimeout:
+            E._CTX = None
+            out.append(dict(status="inconclusive", message=f"path did not finish within {opts.path_timeout_s}s (non-terminating loop?)", decisions=len(p), queries=0, solver_s=0,
+                            obligations=[], violations=[], unknown=[], validated=0, validation_mismatch=None, notes=[], witness=None, outputs=None, unknown_branches=0))
+            n += 1
+            continue
         except E.HarnessError as e:
             out.append(dict(status="harness_error", message=str(e) + "\n" + traceback.format_exc()[-1500:], decisions=len(p), queries=0, solver_s=0,
                             obligations=[], violations=[], unknown=[], validated=0, validation_mismatch=None, notes=[], witness=None, outputs=None,
